@@ -254,8 +254,22 @@ def wl_config(ctx, rng, case_no):
         feat.append("mixed-case-name")
     if "%" in text:
         feat.append("percent-in-value")
+    via_path = text.isascii() and rng.random() < 0.3
     try:
-        back = Theme.from_file(io.StringIO(text), inherit=False)
+        if via_path:
+            # the documented way to load a theme: Theme.read(path)
+            import os
+            import tempfile
+            fd, path = tempfile.mkstemp(suffix=".ini", prefix="rvc20_")
+            try:
+                with os.fdopen(fd, "w", encoding="utf-8") as f:
+                    f.write(text)
+                back = Theme.read(path, inherit=False)
+            finally:
+                os.unlink(path)
+            ctx.count("mon.config_read_from_path")
+        else:
+            back = Theme.from_file(io.StringIO(text), inherit=False)
     except Exception as e:
         ctx.violation("config-does-not-read-back:%s:%s" % (type(e).__name__, "+".join(feat) or "plain"),
                       dict(wit, error=repr(e)))
